@@ -6,6 +6,7 @@ from . import core
 
 sys.path.insert(0, os.path.join(core.VERIF, 'gen'))
 import enc_gen  # noqa: E402
+import dec_gen  # noqa: E402
 
 COMMON_ASSUMPTIONS = [
     'TLC explores the stated bounded configurations exhaustively; beyond them cases are sampled (seeded).',
@@ -85,6 +86,58 @@ ENC_RANDOM = {'kind': 'gen', 'name': 'encrandom', 'gen': enc_random, 'comp': 'en
 ENC_WRAP = {'kind': 'gen', 'name': 'encwrap', 'gen': enc_wrap, 'comp': 'enc', 'trace': 'TraceEnc'}
 ENC_HRANDOM = {'kind': 'gen', 'name': 'enchrandom', 'gen': enc_hist_random, 'comp': 'enc', 'trace': 'TraceEnc'}
 
+# ------------------------------------------------------------------ decoder
+def _dec_ops(c):
+    return [op for op in c.get('ops', []) if op.get('op') == 'decode']
+
+
+def nt_dec_any(c):
+    return len(_dec_ops(c)) >= 2
+
+
+def nt_dec_segmented(c):
+    return any(len(op['in']) > 20 and (op['in'][20] & 0x0C) for op in _dec_ops(c))
+
+
+def nt_dec_fault(c):
+    return any(op.get('fault') or op.get('meta', {}).get('fault') not in (None, 'none') for op in c.get('ops', []))
+
+
+def dec_streams(tier, seed, path):
+    n = 40 if tier == 'quick' else 1500
+    return dec_gen.write(path, dec_gen.streams(seed, n, 's', big=(tier != 'quick')))
+
+
+def dec_faults(tier, seed, path):
+    n = 60 if tier == 'quick' else 3000
+    return dec_gen.write(path, dec_gen.streams(seed + 7, n, 'f', faults=True, big=False))
+
+
+def dec_anyhist(tier, seed, path):
+    n = 150 if tier == 'quick' else 6000
+    return dec_gen.write(path, dec_gen.anyhist(seed + 13, n, 'a', tecmp=False))
+
+
+def dec_frames(tier, seed, path):
+    n = 300 if tier == 'quick' else 10000
+    return dec_gen.write(path, dec_gen.frames(seed + 17, n, 'c'))
+
+
+DEC_INV = ['InvC05', 'InvC06', 'InvPendingIsRun']
+DEC_REASM = {'kind': 'mc', 'tree': True, 'name': 'reassembly', 'module': 'MC_Link', 'comp': 'dec', 'trace': 'TraceDec',
+             'cfg': {'quick': 'MC_Reassembly_quick.cfg', 'thorough': 'MC_Reassembly_thorough.cfg'},
+             'extra': {'solo': True}, 'invariants': DEC_INV}
+DEC_FAULTS = {'kind': 'mc', 'tree': True, 'name': 'faults', 'module': 'MC_Link', 'comp': 'dec', 'trace': 'TraceDec',
+              'cfg': {'quick': 'MC_Faults_quick.cfg', 'thorough': 'MC_Faults_thorough.cfg'},
+              'extra': {'solo': True}, 'invariants': DEC_INV}
+DEC_ANY = {'kind': 'mc', 'tree': True, 'name': 'anyhistory', 'module': 'MC_DecAny', 'comp': 'dec', 'trace': 'TraceDec',
+           'cfg': {'quick': 'MC_DecAny_quick.cfg', 'thorough': 'MC_DecAny_thorough.cfg'},
+           'extra': {'solo': True}, 'invariants': ['InvC17', 'InvC18', 'InvC02']}
+DEC_STREAMS = {'kind': 'gen', 'name': 'streams', 'gen': dec_streams, 'comp': 'dec', 'trace': 'TraceDec'}
+DEC_RFAULTS = {'kind': 'gen', 'name': 'randomfaults', 'gen': dec_faults, 'comp': 'dec', 'trace': 'TraceDec'}
+DEC_RANY = {'kind': 'gen', 'name': 'randomhistory', 'gen': dec_anyhist, 'comp': 'dec', 'trace': 'TraceDec'}
+DEC_FRAMES = {'kind': 'gen', 'name': 'randomframes', 'gen': dec_frames, 'comp': 'dec', 'trace': 'TraceDec'}
+
 PROPS = {
     'C01': {'level': 'model_checking', 'stages': [ENC_BATCH, ENC_RANDOM], 'nontrivial_case': nt_enc_any,
             'rule': 'MC_Enc/EncBatch: every batch of 0..MaxPk packets over LenSet x MtSet x every context of MaxSet x MinSet, '
@@ -109,5 +162,40 @@ PROPS = {
     'C10': {'level': 'model_checking', 'stages': [ENC_HIST, ENC_HRANDOM], 'nontrivial_case': nt_enc_later_segmented,
             'rule': 'as C09; every encode event also logs the frames of a fresh encoder with the same ids; monitor '
                     'SameUpToShift. Non-trivial = distinct histories whose second or later encode call needed segmentation.',
+            'assumptions': COMMON_ASSUMPTIONS},
+    'C05': {'level': 'model_checking', 'stages': [DEC_REASM, DEC_STREAMS], 'nontrivial_case': nt_dec_segmented,
+            'rule': 'MC_Link/Reassembly: per-endpoint senders of well-formed streams (unsegmented, 2..MaxSegs segments of every '
+                    'size in SegSizes, optional trailing bytes / zero padding after a segment, counters crossing 65535->0), all '
+                    'interleavings up to MaxFrames frames; every transition replayed on the real decoder (tree replay with '
+                    'save/restore of decoder copies) with the private pending table compared through the hook; plus seeded random '
+                    'streams on 1..6 endpoints with messages up to 65535 bytes and unequal segment sizes. Monitor: the call '
+                    'returns exactly what the sender-side ghost expects (C05 in TraceDec). Non-trivial = distinct episodes feeding '
+                    'at least one segment.',
+            'assumptions': COMMON_ASSUMPTIONS},
+    'C06': {'level': 'model_checking', 'stages': [DEC_FAULTS, DEC_RFAULTS], 'nontrivial_case': nt_dec_fault,
+            'rule': 'MC_Link/Faults: the Reassembly senders plus every placement of up to MaxFaults faults (drop, duplicate, '
+                    'hold/release reordering, corrupt version, corrupt type); tree replay on the real decoder; plus seeded random '
+                    'fault sequences. Monitors NoCorruption (every delivered packet equals a declared sent message of its '
+                    'endpoint) and Recovery (a last segment extending a clean run delivers). Non-trivial = distinct episodes '
+                    'containing at least one fault.',
+            'assumptions': COMMON_ASSUMPTIONS},
+    'C17': {'level': 'model_checking', 'stages': [DEC_ANY, DEC_RANY], 'nontrivial_case': nt_dec_segmented,
+            'rule': 'MC_DecAny: every history up to MaxFrames buffers over an alphabet of well-formed, orphan, out-of-order, '
+                    'changed-version/type, trailing-byte, multi-message, invalid, truncated, header-only, undersized and '
+                    'TECMP-routed buffers on NEndpoints endpoints, counters crossing the wrap; tree replay on the real decoder; '
+                    'monitor: endpoints in the hook table = endpoints with an open clean run (ghost from the frames alone), '
+                    'buffered bytes <= bytes of the run. Non-trivial = distinct episodes feeding at least one segment.',
+            'assumptions': COMMON_ASSUMPTIONS + ['needs the read-only hook Decoder::verifPending()']},
+    'C18': {'level': 'model_checking', 'stages': [DEC_ANY, DEC_RANY], 'nontrivial_case': nt_dec_any,
+            'rule': 'as C17; the executor also runs one real solo decoder per endpoint on that endpoint\'s frames only; monitor: '
+                    'packets returned by the shared decoder = packets of the solo decoder, every returned packet carries the '
+                    'frame\'s endpoint, non-CMP buffers leave the pending table untouched. Non-trivial = distinct episodes of at '
+                    'least two decode calls.',
+            'assumptions': COMMON_ASSUMPTIONS},
+    'C04': {'level': 'model_checking', 'stages': [DEC_ANY, DEC_FRAMES], 'nontrivial_case': nt_dec_any,
+            'rule': 'frames of 0..5 unsegmented messages of every payload kind with arbitrary field values, consistent and '
+                    'deliberately inconsistent inner lengths, bus-error flags, truncated at any offset and zero padded, decoded by '
+                    'a decoder with history; monitor DecodedMatchesWire: packets = messages found by the independent walker of '
+                    'spec/Frames.tla, field by field from the layout offsets. Non-trivial = distinct episodes of at least two decode calls.',
             'assumptions': COMMON_ASSUMPTIONS},
 }
